@@ -17,24 +17,18 @@ Proof. revert i; induction l as [|x l IH]; intros [|i]; cbn; try done. by rewrit
 
 Lemma stacks_setstack s a st : stacks (setstack s a st) = <[a := st]> (stacks s).
 Proof. unfold stacks, setstack, upda; cbn. rewrite <- alter_const_insert. by apply fmap_alter_const. Qed.
-Lemma stacks_setstackreg s a st r : stacks (setstackreg s a st r) = <[a := st]> (stacks s).
-Proof. unfold stacks, setstackreg, upda; cbn. rewrite <- alter_const_insert. by apply fmap_alter_const. Qed.
 Lemma stacks_settoken s c b : stacks (settoken s c b) = stacks s.
 Proof. unfold stacks, settoken, upda; cbn. by apply fmap_alter_same. Qed.
 Lemma stacks_setsres s c b : stacks (setsres s c b) = stacks s.
 Proof. unfold stacks, setsres, upda; cbn. by apply fmap_alter_same. Qed.
 Lemma toks_setstack s a st : toks (setstack s a st) = toks s.
 Proof. unfold toks, setstack, upda; cbn. by apply fmap_alter_same. Qed.
-Lemma toks_setstackreg s a st r : toks (setstackreg s a st r) = toks s.
-Proof. unfold toks, setstackreg, upda; cbn. by apply fmap_alter_same. Qed.
 Lemma toks_setsres s c b : toks (setsres s c b) = toks s.
 Proof. unfold toks, setsres, upda; cbn. by apply fmap_alter_same. Qed.
 Lemma toks_settoken s c b : toks (settoken s c b) = <[c := b]> (toks s).
 Proof. unfold toks, settoken, upda; cbn. rewrite <- alter_const_insert. by apply fmap_alter_const. Qed.
 Lemma sress_setstack s a st : sress (setstack s a st) = sress s.
 Proof. unfold sress, setstack, upda; cbn. by apply fmap_alter_same. Qed.
-Lemma sress_setstackreg s a st r : sress (setstackreg s a st r) = sress s.
-Proof. unfold sress, setstackreg, upda; cbn. by apply fmap_alter_same. Qed.
 Lemma sress_settoken s c b : sress (settoken s c b) = sress s.
 Proof. unfold sress, settoken, upda; cbn. by apply fmap_alter_same. Qed.
 Lemma sress_setsres s c b : sress (setsres s c b) = <[c := b]> (sress s).
@@ -121,7 +115,16 @@ Lemma toks_setev s e c : toks (setev s e c) = toks s. Proof. done. Qed.
 Lemma toks_setdw s d c : toks (setdw s d c) = toks s. Proof. done. Qed.
 Lemma toks_setdbl s k c : toks (setdbl s k c) = toks s. Proof. done. Qed.
 Ltac solve_stacks :=
-  rewrite ?stacks_setstack, ?stacks_setstackreg;
+  rewrite ?stacks_setstack;
   rewrite ?stacks_addlog, ?stacks_setf, ?stacks_setev, ?stacks_setdw, ?stacks_setdbl, ?stacks_settoken, ?stacks_setsres;
   rewrite ?stacks_addlog, ?stacks_setf, ?stacks_setev, ?stacks_setdw, ?stacks_setdbl, ?stacks_settoken, ?stacks_setsres;
   reflexivity.
+
+(* the two steps that end a poll with Ready also pop the await / drop continuation frame *)
+Lemma pop_cont_cases rest : pop_cont rest = rest \/
+  exists x r, rest = x :: r /\ pop_cont (x :: r) = r /\ ((exists f, x = FAwRet f) \/ (exists f k, x = FDropRet f k)).
+Proof. destruct rest as [|[] r]; try (by left); right; eexists _, r; (split; [done|split; [done|] ]); [left|right]; eauto. Qed.
+Ltac pop_cont_split :=
+  try match goal with |- context [pop_cont ?r] =>
+    let Hpc := fresh "Hpc" in
+    destruct (pop_cont_cases r) as [Hpc|(?xc & ?rc & -> & Hpc & [[?fc ->]|[?fc [?kc ->]]])]; rewrite Hpc in *; clear Hpc end.
